@@ -441,7 +441,7 @@ class Driver:
     def add_handle(self, cls, obj):
         hd = Handle(cls, obj, None)
         hd.belief = self.handle_content(hd)
-        same = [x for x in self.held if x.obj is obj]
+        same = [x for x in self.held if x.obj is obj or shares(x.obj, obj)]
         if same:
             hd.grp = same[0].grp
         else:
@@ -722,8 +722,7 @@ class Driver:
             else:
                 o[0][1] += 0.001 * eps
         elif c in ("nac_setter", "nac_getter"):
-            o["born"][0] = o["born"][0] * (1.0 + 0.2 * eps)
-            o["born"][-1] = o["born"][-1] * (1.0 + 0.2 * eps)
+            o["born"] *= (1.0 + 0.2 * eps)  # in place, keeps the symmetry of the tensors
             o["dielectric"] = np.array(o["dielectric"]) * (1.0 + 0.1 * eps)
         elif c in ("dataset_setter", "dataset_getter"):
             if "first_atoms" in o:
@@ -736,8 +735,8 @@ class Driver:
                 o["displacements"][0, 0, 0] += 0.002 * eps
         else:  # a cell object handed out by a getter
             o.masses = np.array(o._masses) * (1.0 + 0.05 * eps)
-        for x in self.held:  # the caller knows which of its references are one object
-            if x.obj is o:
+        for x in self.held:  # the caller knows which of its references are (parts of) one object
+            if x.grp == hd.grp:
                 x.belief = self.handle_content(x)
 
     def do_Drop(self, op, ev):
